@@ -19,7 +19,7 @@ Next == \/ /\ l = 0 /\ sh = 0
            /\ sh' = sh
 
 RuleNames == {"NoPanic", "TimeAccept", "TimeValue", "TimePrint", "TimeFmt", "RangeRow", "PlusRow",
-              "DateAccept", "DateValue", "DateYear", "DurAccept", "DurValue", "DurPrint"}
+              "DateAccept", "DateValue", "DateYear", "DurAccept", "DurValue", "DurPrint", "Pure"}
 
 SepOK(sep) == sep \in {"--", "//"}
 
@@ -31,6 +31,12 @@ Holds(r, ev) ==
                 LET e == ParseTime(c.s) IN o.off = e.off /\ o.h12 = e.h12
       [] r = "TimePrint" -> k = "time" /\ live /\ o.ok /\ ParseTime(c.s).ok =>
                 LET e == ParseTime(c.s) IN o.str = FormatTime(e.off, e.h12)
+      (* observing a value (writing it in the other notation, adding to it, comparing it) does not change it *)
+      [] r = "Pure" -> /\ k = "time" /\ live /\ o.ok /\ ParseTime(c.s).ok =>
+                            LET e == ParseTime(c.s) IN
+                            o.alt = FormatTime(e.off, ~e.h12) /\ o.str2 = o.str /\ o.h12_2 = o.h12 /\ o.off2 = o.off
+                       /\ k = "date" /\ live /\ o.ok /\ ParseDate(c.s).ok =>
+                            LET e == ParseDate(c.s) IN o.alt = FormatDate(e.ord, ~e.dashes) /\ o.str2 = o.str
       [] r = "TimeFmt" -> k = "timefmt" /\ live =>
                 /\ o.ok /\ o.off = c.off /\ o.h12 = c.h12 /\ o.str = c.s
                 /\ o.api_ok /\ o.api_off = c.off /\ o.api_str = FormatTime(c.off, FALSE)
